@@ -1052,15 +1052,23 @@ Definition w_partial : list sevent :=
       MP.MArr [w_columnar [97; 97]%N [([118]%N, w_ints)];
                w_columnar [98; 98]%N [([118]%N, MP.MArr [MP.MInt MP.KFix 1; MP.MStr [115]%N])]])])); SFlush].
 
-(* STILL possible on the fixed code: row format {m: cpu, t: T0, h: "", fields: {a: "x"},
-   tags: {a: "t", a_value: "u"}}.  rowsToColumnar renames the field a (it collides with the tag a) to
-   a_value, which collides with the tag a_value: that column gets 2 entries for 1 row.  The write
-   is accepted (204); the flush fails (array.NewRecord panics - recovered - or the Parquet writer
-   refuses the unequal columns) and the accepted row is dropped, not retried. *)
+(* lost its row before ac0d5a8: row format {m: cpu, t: T0, h: "", fields: {a: "x"},
+   tags: {a: "t", a_value: "u"}}.  rowsToColumnar renamed the field a (it collides with the tag a) to
+   a_value, the name of another tag: that column got 2 entries for 1 row and the flush failed.
+   Now the field moves on to a_value_value. *)
 Definition w_suffix_collision : list sevent :=
   [SReq (RqMsgpack None (MP.MMap [(MP.MStr str_m, MP.MStr str_cpu); (MP.MStr [116]%N, MP.MInt MP.KI64 T0);
       (MP.MStr [104]%N, MP.MStr []);
       (MP.MStr str_fields, MP.MMap [(MP.MStr [97]%N, MP.MStr [120]%N)]);
+      (MP.MStr str_tags, MP.MMap [(MP.MStr [97]%N, MP.MStr [116]%N);
+                                  (MP.MStr [97; 95; 118; 97; 108; 117; 101]%N, MP.MStr [117]%N)])])); SFlush].
+
+(* a chain: fields {a, a_value} and tags {a, a_value}: a -> a_value_value, a_value -> a_value_value_value *)
+Definition w_suffix_chain : list sevent :=
+  [SReq (RqMsgpack None (MP.MMap [(MP.MStr str_m, MP.MStr str_cpu); (MP.MStr [116]%N, MP.MInt MP.KI64 T0);
+      (MP.MStr [104]%N, MP.MStr []);
+      (MP.MStr str_fields, MP.MMap [(MP.MStr [97]%N, MP.MStr [120]%N);
+                                    (MP.MStr [97; 95; 118; 97; 108; 117; 101]%N, MP.MInt MP.KFix 7)]);
       (MP.MStr str_tags, MP.MMap [(MP.MStr [97]%N, MP.MStr [116]%N);
                                   (MP.MStr [97; 95; 118; 97; 108; 117; 101]%N, MP.MStr [117]%N)])])); SFlush].
 
@@ -1099,10 +1107,13 @@ Lemma refuted_partial :
   stored_table (r_state (run_server prod_cfg w_partial)) = [([100;101;102;97;117;108;116;47;97;97]%N, 2%N)].
 Proof. vm_compute. repeat split; reflexivity. Qed.
 
-Lemma refuted_lost :
-  r_obs (run_server prod_cfg w_suffix_collision) = [OStatus S2xx; OFlush true] /\
-  r_end (run_server prod_cfg w_suffix_collision) = Completed /\
-  held_rows (r_state (run_server prod_cfg w_suffix_collision)) = 0.
+Lemma suffix_witnesses_fixed :
+  (forallb (sevent_ok prod_cfg) w_suffix_collision = true /\
+   r_obs (run_server prod_cfg w_suffix_collision) = [OStatus S2xx; OFlush false] /\
+   stored_table (r_state (run_server prod_cfg w_suffix_collision)) = [(str_default_cpu, 1%N)]) /\
+  (forallb (sevent_ok prod_cfg) w_suffix_chain = true /\
+   r_obs (run_server prod_cfg w_suffix_chain) = [OStatus S2xx; OFlush false] /\
+   stored_table (r_state (run_server prod_cfg w_suffix_chain)) = [(str_default_cpu, 1%N)]).
 Proof. vm_compute. repeat split; reflexivity. Qed.
 
 Lemma nil_key_recovered :
@@ -1134,9 +1145,9 @@ Lemma without_recover_dies :
   r_end (run {| max_rows := 1000000; recover_flush := false |} w_ragged init) = Died [PIndexRange].
 Proof. vm_compute. reflexivity. Qed.
 
-(* input classes (Model.batch_class) of the sequences above: the guard of the row-conservation
-   theorem only excludes 8 (columns of different lengths) *)
+(* input classes (Model.batch_class) of the sequences above: all inside the guard of the
+   row-conservation theorem (which excludes only 8, columns of different lengths, and 16) *)
 Lemma witness_classes :
   map (fun evs => fold_left (fun a e => N.lor a (event_class (front_ev prod_cfg e))) evs 0%N)
-      [w_underscore; w_collision; w_suffix_collision; w_guarded] = [2; 4; 8; 2]%N.
+      [w_underscore; w_collision; w_suffix_collision; w_suffix_chain; w_guarded] = [2; 4; 0; 0; 2]%N.
 Proof. vm_compute. reflexivity. Qed.
